@@ -586,6 +586,32 @@ Definition obs_of_digest (d : digest) : obs :=
   let '(_, _, _, _, t, n) := d in {| o_target := t; o_pops := n |}.
 Definition ok_case (ops : list op) (ds : list digest) : bool := ok_run ops (map obs_of_digest ds).
 
+(* the depth every ENTRY record must carry: the number of traced functions live on the real stack when
+   the call is made.  ENTRY records are written lazily but in call order, so the records written so far
+   form a prefix of the calls made. *)
+Definition live_hooked (fs : list rframe) : N := N.of_nat (length (flat_map f_pend fs)).
+Definition pushes (o : op) : bool :=
+  match o with Call _ _ _ _ | TCall _ _ _ | Plt _ _ _ _ _ | TPlt _ _ => true | _ => false end.
+Fixpoint expected_depths (st : rstk) (ops : list op) : list N :=
+  match ops with
+  | [] => []
+  | o :: r =>
+      match rstep st o with
+      | None => []
+      | Some (st1, _) => (if pushes o then [live_hooked (frames st)] else []) ++ expected_depths st1 r
+      end
+  end.
+Fixpoint is_prefix (a b : list N) : bool :=
+  match a, b with
+  | [], _ => true
+  | x :: a', y :: b' => (x =? y) && is_prefix a' b'
+  | _ :: _, [] => false
+  end.
+Definition entry_rec_depths (recs : list (N * N * N)) : list N :=
+  flat_map (fun r => let '(ty, d, _) := r in if ty =? 0 then [d] else []) recs.
+Definition ok_depths (ops : list op) (recs : list (N * N * N)) : bool :=
+  is_prefix (entry_rec_depths recs) (expected_depths rinit ops).
+
 (* flat encodings used by the generated case files (cheap to parse):
    digest = idx ridx exc target pops, then idx x (loc ip plt flags mem);  records = ty depth child ... *)
 Fixpoint take_ents (n : nat) (l : list N) : list (N * N * N * N * N) * list N :=
@@ -617,7 +643,8 @@ Definition fcase := (list op * list N * list N * bool)%type.
 Definition fagree (c : fcase) : bool :=
   let '(ops, ds, recs, cr) := c in agree_case ops (decode_digests (S (length ops)) ds) (decode_recs recs) cr.
 Definition fok (c : fcase) : bool :=
-  let '(ops, ds, _, cr) := c in negb cr && ok_case ops (decode_digests (S (length ops)) ds).
+  let '(ops, ds, recs, cr) := c in
+  negb cr && ok_case ops (decode_digests (S (length ops)) ds) && ok_depths ops (decode_recs recs).
 Definition flegal (c : fcase) : bool := let '(ops, _, _, _) := c in legal_prog ops.
 
 Fixpoint bad_indices {A} (f : A -> bool) (l : list A) (i : nat) : list nat :=
